@@ -37,7 +37,7 @@ func solveAll(obls []*Obligation, timeoutS int) {
 		wg.Add(1)
 		go func(ob *Obligation) {
 			defer wg.Done()
-			ob.Result = Solve(ob.Query(), timeoutS, true)
+			solveObligation(ob, timeoutS)
 		}(ob)
 	}
 	wg.Wait()
@@ -138,3 +138,146 @@ func cmdVerify(args []string) {
 	}
 }
 
+
+// solveObligation tries the goal as one query with a short budget and, when that is not decided,
+// splits it: conjuncts of the goal are discharged separately, and so are the alternative paths
+// reaching the program point (each sub-query with the full budget).
+func solveObligation(ob *Obligation, timeoutS int) {
+	if ob.Expect == "sat" {
+		ob.Result = Solve(ob.Query(), timeoutS, true)
+		return
+	}
+	parts := splitGoal(ob.Goal)
+	var pcParts []Term
+	if ob.script != nil {
+		pcParts = ob.script.pcDisjuncts(ob.PC)
+	}
+	if len(parts) < 2 && len(pcParts) < 2 {
+		ob.Result = Solve(ob.Query(), timeoutS, true)
+		return
+	}
+	short := timeoutS / 6
+	if short < 3 {
+		short = 3
+	}
+	r := Solve(ob.Query(), short, true)
+	if r.Status == "unsat" || r.Status == "sat" {
+		ob.Result = r
+		return
+	}
+	if len(pcParts) < 2 {
+		pcParts = []Term{True}
+	}
+	type sub struct {
+		goal Term
+		path Term
+	}
+	var subs []sub
+	for _, g := range parts {
+		for _, p := range pcParts {
+			subs = append(subs, sub{g, p})
+		}
+	}
+	results := make([]SolverResult, len(subs))
+	var wg sync.WaitGroup
+	for i, sb := range subs {
+		wg.Add(1)
+		go func(i int, sb sub) {
+			defer wg.Done()
+			q := *ob
+			q.Goal = sb.goal
+			if sb.path.S != "true" {
+				q.extra = append(append([]string{}, ob.extra...), "(assert "+sb.path.S+")")
+			}
+			results[i] = Solve(q.Query(), timeoutS, true)
+		}(i, sb)
+	}
+	wg.Wait()
+	agg := SolverResult{Status: "unsat"}
+	slowest := 0.0
+	for _, pr := range results {
+		if pr.Secs > slowest {
+			slowest = pr.Secs
+		}
+		if pr.Status == "sat" {
+			agg = pr
+			break
+		}
+		if pr.Status != "unsat" {
+			agg.Status, agg.Raw, agg.Solver = pr.Status, pr.Raw, pr.Solver
+		}
+	}
+	if agg.Status == "unsat" {
+		agg.Solver = fmt.Sprintf("split:%dx%d/%s", len(parts), len(pcParts), results[0].Solver)
+	}
+	agg.Secs = r.Secs + slowest
+	ob.Result = agg
+}
+
+// splitGoal splits `(and a b ...)` and `(=> g (and a b ...))` into separately provable goals.
+func splitGoal(g Term) []Term {
+	s := g.S
+	if strings.HasPrefix(s, "(and ") {
+		var out []Term
+		for _, p := range sexpArgs(s) {
+			out = append(out, splitGoal(Term{p, SBool})...)
+		}
+		return out
+	}
+	if strings.HasPrefix(s, "(=> ") {
+		args := sexpArgs(s)
+		if len(args) == 2 {
+			inner := splitGoal(Term{args[1], SBool})
+			if len(inner) > 1 {
+				var out []Term
+				for _, p := range inner {
+					out = append(out, Term{"(=> " + args[0] + " " + p.S + ")", SBool})
+				}
+				return out
+			}
+		}
+	}
+	return []Term{g}
+}
+
+// sexpArgs returns the top-level arguments of "(op a b c)".
+func sexpArgs(s string) []string {
+	s = s[1 : len(s)-1]
+	i := strings.IndexByte(s, ' ')
+	if i < 0 {
+		return nil
+	}
+	s = s[i+1:]
+	var out []string
+	d := 0
+	start := -1
+	for j := 0; j < len(s); j++ {
+		c := s[j]
+		switch {
+		case c == '(':
+			if d == 0 && start < 0 {
+				start = j
+			}
+			d++
+		case c == ')':
+			d--
+			if d == 0 && start >= 0 {
+				out = append(out, s[start:j+1])
+				start = -1
+			}
+		case c == ' ':
+			if d == 0 && start >= 0 {
+				out = append(out, s[start:j])
+				start = -1
+			}
+		default:
+			if d == 0 && start < 0 {
+				start = j
+			}
+		}
+	}
+	if start >= 0 {
+		out = append(out, s[start:])
+	}
+	return out
+}
